@@ -229,6 +229,10 @@ def sample_groups(rng, d, max_size=3):
             groups.append(sorted(g) if rng.random() < 0.5 else g)
     if not groups:
         groups = [[feats[0]]]
+    if rng.random() < 0.15:
+        # empty groups are legal (check_groups keeps them): they change the NUMBER of groups without changing the partition
+        for _ in range(rng.randint(1, 3)):
+            groups.insert(rng.randrange(len(groups) + 1), [])
     return groups
 
 
